@@ -9,8 +9,8 @@ from . import gen
 from .core import Failure
 from .oracles import modularity as om
 
-GAMMAS = [1.0, 0.5, 0.8, 1.2, 1.5]
-QTYPES = ["sta", "smp", "gja", "pos", "neg"]
+GAMMAS = [0.8, 1.0, 1.2, 0.5, 1.5]      # non-unit gamma first (a minimal draw should not hide the resolution parameter)
+QTYPES = ["smp", "sta", "gja", "neg", "pos"]
 
 # routine -> (input kind, objective family)
 ROUTINES = {
